@@ -224,7 +224,7 @@ func ruleG2(c *Ctx, id string) {
 				return false, false
 			}
 			dc, ok := cd.X.(*ssa.Call)
-			if ok && dc.Call.StaticCallee() == V.DecLink && stripConv(recvOf(dc)) == fip {
+			if ok && staticCallee(dc) == V.DecLink && stripConv(recvOf(dc)) == fip {
 				return true, true
 			}
 			return false, false
@@ -305,10 +305,10 @@ func ruleG3(c *Ctx, id string) {
 		// returned value must be the result of GetInodeInum on the decoded Ino
 		res := rs.Val
 		call, _ := res.(*ssa.Call)
-		okSrc := call != nil && call.Call.StaticCallee() == V.GetInodeInum
+		okSrc := call != nil && staticCallee(call) == V.GetInodeInum
 		okIno := false
 		if okSrc {
-			if mc, fl := fieldOfCallResult(argN(call, 0)); mc != nil && mc.Call.StaticCallee() == mk && fl == "Ino" {
+			if mc, fl := fieldOfCallResult(argN(call, 0)); mc != nil && staticCallee(mc) == mk && fl == "Ino" {
 				if _, isP := mc.Call.Args[0].(*ssa.Parameter); isP {
 					okIno = true
 				}
@@ -329,7 +329,7 @@ func ruleG3(c *Ctx, id string) {
 				return false, false
 			}
 			mc, fl2 := fieldOfCallResult(b)
-			if mc == nil || fl2 != "Gen" || mc.Call.StaticCallee() != mk {
+			if mc == nil || fl2 != "Gen" || staticCallee(mc) != mk {
 				return false, false
 			}
 			return true, cd.Op == token.EQL
